@@ -80,6 +80,10 @@ func TestMain(m *testing.M) {
 	if os.Getenv("VERIF_NO_PROXY") == "" {
 		valid.SetStructTypeCache(proxy)
 		proxyInstalled = true
+	} else if os.Getenv("VERIF_SYNCMAP") != "" {
+		// the unbounded cache the library's comments suggest, handed over as it is (a *sync.Map has more methods than
+		// CacheEr asks for - LoadOrStore, Range ... - which the proxy would hide)
+		valid.SetStructTypeCache(&sync.Map{})
 	}
 	if sep := os.Getenv("VERIF_SEP"); sep != "" {
 		// the clause separator is an exported variable of the library: this process runs with another one
